@@ -1382,6 +1382,12 @@ def replay(ctx, path):
         print("executor died:", err[-500:])
         return 1
     o = obs[0]
+    if c.get("op") == "abandoned":
+        # how much of the request goes out before the peer stalls varies: judge by the property itself
+        ok = set(o.get("submitted", [])) | {enc(b"warm-up")}
+        foreign = [d for d in o.get("delivered", []) if d not in ok]
+        print("handed to the service but never submitted:", foreign)
+        return 1 if foreign else 0
     before = r.get("observed") or {}
     same = all(o.get(k) == before.get(k) for k in ("delivered", "calls") if k in before and k != "calls") and \
         [x.get("resp") for x in o.get("calls", [])] == [x.get("resp") for x in before.get("calls", [])]
